@@ -45,8 +45,9 @@ class C02(Property):
     level_text = ("Unbounded Rocq theorems over every configuration, every history of Allow/Pass/Fail with arbitrary clock "
                   "readings and every CPU trace: a shed implies (CPU reading >= threshold now, or an earlier shed and an "
                   "overloaded Allow less than coolOffDuration ago) and flying, avgFlying > 0.1 x capacity; overloaded with "
-                  "flying and avgFlying above capacity implies shed; flying = admitted - resolved (also for every "
-                  "interleaving of the atomic steps of concurrent calls); idle and disabled shedders never shed; capacity "
+                  "flying and avgFlying above capacity implies shed; flying = admitted - resolved; idle and disabled shedders never shed "
+                  "(shed-only-if, shed-when-saturated, idle and conservation are also proved for every interleaving of the "
+                  "atomic steps of concurrent calls, on the possibly stale values each call read); capacity "
                   "= max(1, peak bucket pass count x min average latency x windowScale) over the buckets Reduce visits. "
                   "The model is tied to core/load by differential execution of generated histories in a white-box overlay "
                   "test with a virtual clock and an injected CPU gauge; constants are re-extracted from the source.")
